@@ -64,7 +64,7 @@ utf8dec(uint_least32_t *c, const unsigned char *s, size_t n)
 			return -1;
 		x = x << 6 | b & 0x3f;
 	}
-	if (x >= 0x110000 || x - 0xd800 < 0x0200)
+	if (x >= 0x110000 || x - 0xd800 < 0x0800)
 		return -1;
 	/* overlong encoding */
 	if (x < (l == 2 ? 0x80 : l == 3 ? 0x800 : 0x10000))
